@@ -21,6 +21,12 @@ OpOf(a) == CASE a = "S0"   -> <<"status", 0>>
              [] a = "F"    -> <<"flush">>
              [] a = "E404" -> <<"httpError", 404, 5>>
              [] a = "AS401" -> <<"abortStatus", 401>>
+             \* helpers of Context (RuxChainFn.LibOps gives their meaning, the harness calls the real methods)
+             [] a = "T200"  -> <<"lib", "text200">>
+             [] a = "H200e" -> <<"lib", "html200-empty">>
+             [] a = "J201"  -> <<"lib", "json201">>
+             [] a = "JB200" -> <<"lib", "jsonbytes200">>
+             [] a = "NC"    -> <<"lib", "nocontent">>
 
 VARIABLE ops
 \* the cursor machine's variables are not used by this instance
@@ -37,11 +43,11 @@ Onion(j, k) == << <<In>> \o SubSeq(ops, 1, j) \o <<Nx>> \o SubSeq(ops, k + 1, Le
                   <<In>> \o SubSeq(ops, j + 1, k) \o <<Out>> >>
 Dists == {OneH} \cup { Split(k) : k \in 0..Len(ops) } \cup { Onion(jk[1], jk[2]) : jk \in { x \in (0..Len(ops)) \X (0..Len(ops)) : x[1] <= x[2] } }
 
-WriterOK == \A ch \in Dists : LET d == IdealDispatch(ch, None, None) IN
+WriterOK == \A ch \in Dists : LET d == IdealDispatch(ExpandChain(ch), None, None) IN
                /\ OneCommit(d.w, d.wops)
-               /\ d.wops = SelectSeq(ops, LAMBDA o : TRUE)     \* every distribution executes the ops in the same order
+               /\ d.wops = ExpandScript(ops)                   \* every distribution executes the ops in the same order
                /\ d.w.under[1][1] = "WH" /\ \A i \in 2..Len(d.w.under) : d.w.under[i][1] # "WH"
-LineFor(ch) == LET d == IdealDispatch(ch, None, None) IN
+LineFor(ch) == LET d == IdealDispatch(ExpandChain(ch), None, None) IN
                [chain |-> ch, n |-> Len(ch), log |-> d.log, under |-> d.w.under, escaped |-> FALSE, hooked |-> FALSE, checkw |-> TRUE,
                 status |-> d.w.status, length |-> d.w.length]
 Emit == \A ch \in (IF Len(ops) = MaxOps \/ Len(ops) <= 2 THEN Dists ELSE {OneH}) : PrintT(ToJson(LineFor(ch)))
